@@ -133,9 +133,19 @@ func VerifC18_Tamper() {
 	verif_Assert(rerr != nil && req == nil, "an altered sealed ingest request is rejected")
 }
 
+// c18rsa: hashed-ID keys are RSA keys (else ECDSA)
+var c18rsa bool
+
 func c18hashedKey() (crypto.PrivKey, peer.ID) {
-	// an ECDSA key: its peer ID is a hash of the key and does not embed it
-	priv, pub, err := crypto.GenerateECDSAKeyPair(rand.Reader)
+	// an ECDSA or RSA key: its peer ID is a hash of the key and does not embed it
+	var priv crypto.PrivKey
+	var pub crypto.PubKey
+	var err error
+	if c18rsa {
+		priv, pub, err = crypto.GenerateRSAKeyPair(2048, rand.Reader)
+	} else {
+		priv, pub, err = crypto.GenerateECDSAKeyPair(rand.Reader)
+	}
 	verif_Assume(err == nil)
 	id, err := peer.IDFromPublicKey(pub)
 	verif_Assume(err == nil)
@@ -145,7 +155,16 @@ func c18hashedKey() (crypto.PrivKey, peer.ID) {
 // C18: the signer check holds for every key type, including keys whose peer ID
 // does not embed the public key.
 func VerifC18_WrongSignerHashedID() {
-	_, idA := c18hashedKey()
+	c18rsa = verif_Bool("rsaKeys")
+	defer func() { c18rsa = false }()
+	privA0, idA := c18hashedKey()
+	if verif_Bool("genuineRequestOfTheNamedProviderReadFirst") {
+		// what was learnt from one identity's request says nothing about another identity
+		g, gerr := MakeIngestRequest(idA, privA0, []byte{0x12, 0x34}, nil, nil, nil)
+		verif_Assert(gerr == nil, "sealing succeeds")
+		greq, grerr := ReadIngestRequest(g)
+		verif_Assert(grerr == nil && greq != nil && greq.ProviderID == idA, "the provider's own request is accepted")
+	}
 	var privB crypto.PrivKey
 	var idB peer.ID
 	if verif_Bool("signerAlsoHashed") {
